@@ -1,12 +1,12 @@
 /-
-C19 — property theorems.  (Helper lemmas live in `Lemmas.lean`, `Fifo.lean`, `Take.lean`, `Rate.lean`, `Stall.lean`.)
+C19 — property theorems.  (Helper lemmas live in `Lemmas.lean`, `Fifo.lean`, `Take.lean`, `Rate.lean`, `Stall.lean`, `Live.lean`.)
 
 Vocabulary: `run s ops` = final state and event trace of the operations `ops` (any interleaving
 of queueMsg / sendMsg / takeMsg / die / reset / clock ticks / MOTD end / PONG / echo-message
 (un)acknowledged / configuration changes — the filters are part of the configuration) from an
 arbitrary state `s`; `life c now ops` = the same from a freshly constructed `Irc`.
 -/
-import LimnoriaModel.C19.Stall
+import LimnoriaModel.C19.Live
 namespace C19
 open Py List
 
@@ -317,6 +317,24 @@ theorem filter_no_stall_queue (s : Irc) (hf : s.fast = []) (hq : s.queue.isEmpty
        .dropped false m s.now :: (takeMsg { s with lastTake := s.now, queue := q', nextOid := n }).2) :=
   takeMsg_drop_queue s hf hq ht q' m hdq n hd
 
+/-- **Nothing can stall the queues**: whatever the filters do, as soon as something is waiting
+and the clock is past the throttle time and the JOIN limit, a `takeMsg` call removes a message
+from a queue (it is handed to the driver, dropped by a filter, or — the known finding — lost). -/
+theorem no_stall (s : Irc) (hp : s.pending ≠ []) (ht : s.lastTake + s.cfg.throttle < s.now)
+    (hj : s.queue.lastJoin + s.cfg.joinLimit ≤ s.now) :
+    ∃ e ∈ (takeMsg s).2, e.consumes = true :=
+  takeMsg_progress s hp ht hj
+
+/-- **A quitting bot drains its queues, then closes** (liveness, with `quit_drains` for safety):
+a zombie in a reachable state (`ZInv`), with the clock advancing by more than the throttle time
+and at least the JOIN limit between `takeMsg` calls, has empty queues after at most as many
+calls as messages were waiting, and the call after that kills the driver. -/
+theorem quit_completes (s : Irc) (hz : ZInv s) (d : Nat) (hd : s.cfg.throttle < d)
+    (hj : s.cfg.joinLimit ≤ d) :
+    ∃ k, k ≤ s.pending.length ∧ (run s (drainOps d k)).1.pending = [] ∧
+      Ev.driverDie ∈ (run s (drainOps d (k + 1))).2 :=
+  quit_completes_aux tables_ok d s.pending.length s (Nat.le_refl _) hz hd hj
+
 /-! ## the one way a message is lost -/
 
 /-- A message is lost (`takeMsg` returns None after removing it) only when the object coming out
@@ -425,6 +443,11 @@ example : ∃ a b d, (life busyCfg 1000 busyOps).2 =
   refine ⟨(life busyCfg 1000 busyOps).2.take 19, [Ev.rotated (joinB 4) 1012],
     (life busyCfg 1000 busyOps).2.drop 22, by decide, ?_⟩
   intro e he ms; simp at he; subst he; simp
+-- `quit_completes` / `no_stall`: the state right after `die()` in the run above is a quitting bot
+-- with seven messages waiting, and the clock then past every limit
+example : let s := (run (init busyCfg 1000).1 (busyOps.take 11)).1
+    s.zombie = true ∧ s.lastTake ≤ s.now ∧ s.queue.lastJoin ≤ s.now ∧ s.pending.length = 7 ∧
+    s.cfg.throttle < 4 ∧ s.cfg.joinLimit ≤ 4 := by decide
 -- `filter_no_stall_fast`: the dropping filter hits the head of the fast queue
 example : (run (init busyCfg 1000).1 (busyOps.take 12)).1.fast = [whoMsg 5, modeMsg 6] ∧
     runFilters busyCfg.filters 1 (whoMsg 5) = (none, 2) := by decide
